@@ -46,6 +46,48 @@ unsafe impl Sync for Buf {}
 const PAGE: usize = 4096;
 const CANARY: u8 = 0xA5;
 pub static GUARD_HITS: AtomicU64 = AtomicU64::new(0);
+// ---- watchdog (C21): a call that runs without any interference must return
+pub static HEARTBEAT: AtomicU64 = AtomicU64::new(0);
+pub static BUSY: AtomicU64 = AtomicU64::new(0);
+pub static CURRENT: std::sync::Mutex<String> = std::sync::Mutex::new(String::new());
+/// seconds without progress inside an allocator call after which the run is declared hung
+pub const HANG_SECS: u64 = 20;
+pub fn watch_begin(what: &str) {
+    if let Ok(mut c) = CURRENT.try_lock() {
+        c.clear();
+        c.push_str(what);
+    }
+    HEARTBEAT.fetch_add(1, Ordering::Relaxed);
+    BUSY.store(1, Ordering::Relaxed);
+}
+pub fn watch_tick() {
+    HEARTBEAT.fetch_add(1, Ordering::Relaxed);
+}
+pub fn watch_end() {
+    BUSY.store(0, Ordering::Relaxed);
+    HEARTBEAT.fetch_add(1, Ordering::Relaxed);
+}
+pub fn spawn_watchdog() {
+    std::thread::spawn(|| {
+        let mut last = HEARTBEAT.load(Ordering::Relaxed);
+        let mut still = 0u64;
+        loop {
+            std::thread::sleep(std::time::Duration::from_secs(1));
+            let now = HEARTBEAT.load(Ordering::Relaxed);
+            if now == last && BUSY.load(Ordering::Relaxed) == 1 {
+                still += 1;
+            } else {
+                still = 0;
+            }
+            last = now;
+            if still >= HANG_SECS {
+                let cur = CURRENT.try_lock().map(|c| c.clone()).unwrap_or_default();
+                eprintln!("C21-HANG: `{cur}` made no progress for {HANG_SECS} s although nothing interferes with it");
+                unsafe { libc::_exit(78) };
+            }
+        }
+    });
+}
 pub static BUFS_CREATED: AtomicU64 = AtomicU64::new(0);
 impl Buf {
     pub fn new(len: usize) -> Self {
